@@ -126,6 +126,22 @@ func InspectCar(inStream *os.File, verifyHashes bool) (*Report, error) {
 	}
 
 	if stats.Version == 1 && verifyHashes { // check that we've read all the data
+		// Inspect reads through ReadAt and leaves the stream where it was: walk the sections on the
+		// stream itself, so that the probe below looks at what follows the last of them.
+		if _, err := inStream.Seek(0, io.SeekStart); err != nil {
+			return nil, err
+		}
+		br, err := carv2.NewBlockReader(inStream, carv2.ZeroLengthSectionAsEOF(true))
+		if err != nil {
+			return nil, err
+		}
+		for {
+			if _, err := br.SkipNext(); err == io.EOF {
+				break
+			} else if err != nil {
+				return nil, err
+			}
+		}
 		got, err := inStream.Read(make([]byte, 1)) // force EOF
 		if err != nil && err != io.EOF {
 			return nil, err
